@@ -18,7 +18,7 @@ func init() {
 		ID: "C04",
 		Rule: "case = one random geometry of the 8 types (1.2% carry one long path of 63..65537 vertices - lengths on both sides of 64, 256, 1024, 4096, 8192, 16384, 65536 - whose unique X/Y extreme sits at the first/last few positions or next to n/4, n/2, 3n/4 or a power of two; empty members first/last/in runs, collections nested to depth 4 (3%: chains nested 5-10 deep with members before and after the nested one at every level), coordinates from a pool with -0, ±Inf, ±MaxFloat64, subnormals) judged by Points/Len/Bounds against the harness flattening and min/max fold, " +
 			"or one pair/triple of boxes judged against the lattice laws; non-trivial = geometry containing at least one empty member next to a non-empty one, or a box pair that touches/overlaps/nests/is separated on exactly one axis; distinct by content hash",
-		Assumptions: []string{"NaN coordinates excluded (min/max of NaN is outside the property)", "only the canonical empty box (NewBounds) is used as 'empty'"},
+		Assumptions: []string{"NaN coordinates excluded (min/max of NaN is outside the property)", "an empty box is any box for which Min exceeds Max on an axis (the canonical NewBounds one, and 6% of the random boxes otherwise)"},
 		Phases: []core.Phase{
 			{Name: "geoms", NumCases: func(t string) int {
 				if t == "thorough" {
@@ -280,34 +280,46 @@ func runGeom(c *core.Ctx) {
 		}
 	}
 	// Bounds
-	var b *geom.Bounds
-	if c.Guard("Bounds:"+name, detail, func() { b = g.Bounds() }) {
-		return
-	}
-	if b == nil {
-		c.Violate("bounds-nil:"+name, name+".Bounds() returned nil", detail)
-		return
-	}
-	if len(want) == 0 {
-		if !b.Empty() {
-			c.Violate("bounds-notempty:"+name, fmt.Sprintf("%s without vertices has non-empty Bounds %v", name, *b), detail)
-		}
-		return
-	}
 	minx, miny, maxx, maxy := math.Inf(1), math.Inf(1), math.Inf(-1), math.Inf(-1)
 	for _, p := range want {
 		minx, miny = math.Min(minx, p.X), math.Min(miny, p.Y)
 		maxx, maxy = math.Max(maxx, p.X), math.Max(maxy, p.Y)
 	}
-	if b.Min.X != minx || b.Min.Y != miny || b.Max.X != maxx || b.Max.Y != maxy {
-		kind := "plain"
-		if hasEmpty || emptyColl {
-			kind = "with-empty-member"
+	judgeBounds := func(when string) *geom.Bounds {
+		var b *geom.Bounds
+		if c.Guard("Bounds:"+name+when, detail, func() { b = g.Bounds() }) {
+			return nil
 		}
-		c.Violate("bounds-value:"+name+":"+kind, fmt.Sprintf("%s.Bounds() = %v, smallest box is {%v %v} {%v %v}", name, *b, minx, miny, maxx, maxy), detail)
+		if b == nil {
+			c.Violate("bounds-nil:"+name+when, name+".Bounds() returned nil", detail)
+			return nil
+		}
+		if len(want) == 0 {
+			if !b.Empty() {
+				c.Violate("bounds-notempty:"+name+when, fmt.Sprintf("%s without vertices has non-empty Bounds %v", name, *b), detail)
+			}
+			return b
+		}
+		if b.Min.X != minx || b.Min.Y != miny || b.Max.X != maxx || b.Max.Y != maxy {
+			kind := "plain"
+			if hasEmpty || emptyColl {
+				kind = "with-empty-member"
+			}
+			c.Violate("bounds-value:"+name+":"+kind+when, fmt.Sprintf("%s.Bounds() = %v, smallest box is {%v %v} {%v %v}", name, *b, minx, miny, maxx, maxy), detail)
+		}
+		if b.Empty() {
+			c.Violate("bounds-empty:"+name+when, fmt.Sprintf("%s with %d vertices reports an Empty() box", name, len(want)), detail)
+		}
+		return b
 	}
-	if b.Empty() {
-		c.Violate("bounds-empty:"+name, fmt.Sprintf("%s with %d vertices reports an Empty() box", name, len(want)), detail)
+	b := judgeBounds("")
+	if _, isBox := g.(*geom.Bounds); b != nil && !isBox {
+		// The box Bounds() returns is the caller's to modify (accumulating an extent with Extend is
+		// the usual idiom). Doing so must not change what Bounds() says afterwards - of this
+		// geometry or, later in the same process, of any other.
+		b.Extend(&geom.Bounds{Min: geom.Point{X: -7e5, Y: -7e5}, Max: geom.Point{X: 7e5, Y: 7e5}})
+		b.Min.X, b.Max.Y = -9e5, 9e5
+		judgeBounds(":after-an-earlier-result-was-modified")
 	}
 }
 
@@ -327,6 +339,21 @@ var extremes = []float64{math.Inf(-1), math.Inf(1), -1e308, 1e308, -1e-170, 1e-1
 func randBox(r *gen.R) *geom.Bounds {
 	if r.Chance(0.12) {
 		return geom.NewBounds()
+	}
+	if r.Chance(0.06) {
+		// an empty box that is not the canonical one: Min beyond Max on one or both axes
+		// (Empty() reports true for it; as a set it holds no point)
+		b := &geom.Bounds{Min: geom.Point{X: boxCoord(r), Y: boxCoord(r)}, Max: geom.Point{X: boxCoord(r), Y: boxCoord(r)}}
+		switch r.Intn(3) {
+		case 0:
+			b.Min.X, b.Max.X = math.Max(b.Min.X, b.Max.X)+1, math.Min(b.Min.X, b.Max.X)
+		case 1:
+			b.Min.Y, b.Max.Y = math.Max(b.Min.Y, b.Max.Y)+1, math.Min(b.Min.Y, b.Max.Y)
+		default:
+			b.Min.X, b.Max.X = math.Max(b.Min.X, b.Max.X)+1, math.Min(b.Min.X, b.Max.X)
+			b.Min.Y, b.Max.Y = math.Max(b.Min.Y, b.Max.Y)+2, math.Min(b.Min.Y, b.Max.Y)
+		}
+		return b
 	}
 	x0, x1, y0, y1 := boxCoord(r), boxCoord(r), boxCoord(r), boxCoord(r)
 	if r.Chance(0.15) {
